@@ -15,6 +15,8 @@ func register(id string, run func(string) *engine.Report, replay func(engine.Vio
 }
 
 func init() {
+	register("C06", C06, C06Replay)
+	register("C07", C07, C07Replay)
 	register("C09", C09, C09Replay)
 	register("C10", C10, C10Replay)
 	register("C11", C11, C11Replay)
